@@ -148,14 +148,22 @@ def parsePools (p : String) : List Key × List Key :=
   | [a, b] => ((a.splitOn ",").map parseKey, if b = "" then [] else (b.splitOn ",").map parseKey)
   | _ => ([], [])
 
+/-- first token of a case line: where the system entity constraint is registered -/
+def parseReg (kind : String) : Reg :=
+  match kind with
+  | "HC" => { onS := false, onC := true }
+  | "HB" => { onS := true, onC := true }
+  | "HN" => { onS := false, onC := false }
+  | _ => { onS := true, onC := false }
+
 def step (line : String) : String :=
   match splitSp line with
-  | _kind :: p :: txs =>
+  | kind :: p :: txs =>
     let (pool, opool) := parsePools p
     let r := txs.foldl (fun (acc : St Key Nm Tm × List String) t =>
       let (topSys, keep, ops) := parseTx t
       let o := runTxModel acc.1 keep (ops.filterMap (parseOp topSys)) pool opool
-      (o.1, acc.2 ++ [o.2])) ((St.empty : St Key Nm Tm), [])
+      (o.1, acc.2 ++ [o.2])) ((St.empty (parseReg kind) : St Key Nm Tm), [])
     " ".intercalate r.2
   | _ => "bad-case"
 
@@ -192,12 +200,12 @@ def runTxSpec (s : SSt Key Nm Tm) (keepGoing : Bool) (ops : List (Op Key Nm Tm))
 
 def specStep (line : String) : String :=
   match splitSp line with
-  | _kind :: p :: txs =>
+  | kind :: p :: txs =>
     let (pool, opool) := parsePools p
     let r := txs.foldl (fun (acc : SSt Key Nm Tm × List String) t =>
       let (topSys, keep, ops) := parseTx t
       let o := runTxSpec acc.1 keep (ops.filterMap (parseOp topSys)) pool opool
-      (o.1, acc.2 ++ [o.2])) ((SSt.empty : SSt Key Nm Tm), [])
+      (o.1, acc.2 ++ [o.2])) ((SSt.empty (parseReg kind) : SSt Key Nm Tm), [])
     " ".intercalate r.2
   | _ => "bad-case"
 
